@@ -394,7 +394,7 @@ def _with_watchdog(seconds, fn):
         signal.signal(signal.SIGALRM, old)
 
 
-def h_delta_graph(eng, n=2, installed=True):
+def h_delta_graph(eng, n=2, installed=True, empty_last=False):
     """a pack of one full blob and n delta entries whose kind (OFS/REF) and base (any entry, itself included; for OFS any
     entry up to itself) are solver-forked, with a matching index: every lookup terminates, fails with an ordinary error
     or returns the bytes the delta graph denotes; ingestion of the same pack leaves no trace unless every object resolves"""
@@ -411,7 +411,7 @@ def h_delta_graph(eng, n=2, installed=True):
         for i in range(1, n + 1):
             b = bases[i - 1]
             if i not in content and b in content and b != i:
-                content[i] = content[b] + b"+%d" % i
+                content[i] = b"" if (empty_last and i == n) else content[b] + b"+%d" % i
     def name(i):
         if i in content:
             return hashlib.sha1(b"blob %d\0" % len(content[i]) + content[i]).digest()
@@ -421,6 +421,10 @@ def h_delta_graph(eng, n=2, installed=True):
         b = bases[i - 1]
         src = content.get(b, base)
         ins = b"+%d" % i
+        if empty_last and i == n:
+            return bytes([len(src), 0])                  # a delta whose result is the empty blob
+        if not src:
+            return bytes([0, len(ins), len(ins)]) + ins
         return bytes([len(src), len(src) + len(ins), 0x90, len(src), len(ins)]) + ins
     # lay the entries out; OFS needs the base's offset, REF its name
     offs = {}
@@ -493,6 +497,8 @@ def h_delta_graph(eng, n=2, installed=True):
                 err = e
             if err is not None:
                 eng.prove(isinstance(err, ok_errors), f"{tag} ingestion fails with an ordinary error ({type(err).__name__})")
+                eng.prove(len(content) != n + 1, f"{tag} a well-formed pack in which every delta resolves was refused "
+                                                 f"({type(err).__name__}: {err})")
                 eng.prove(_visible(r.object_store) == before and not [f for f in _packdir(d) if not f.endswith(".keep")],
                           f"{tag} refused pack leaves no trace: {_packdir(d)}")
             else:
@@ -508,12 +514,75 @@ def h_delta_graph(eng, n=2, installed=True):
 def checks(tier):
     q = ("quick", "thorough")
     return _b04(tier) + [
-        KCheck("C04e.delta_graph", h_delta_graph, parts=[{"n": n, "installed": ins} for n in (1, 2, 3) for ins in (True, False)],
+        KCheck("C04e.delta_graph", h_delta_graph, parts=[{"n": n, "installed": ins} for n in (1, 2, 3) for ins in (True, False)] +
+                     [{"n": n, "installed": ins, "empty_last": True} for n in (1, 2) for ins in (True, False)],
                encoded=["dulwich.pack.Pack.get_raw/resolve_object/get_ref", "dulwich.pack.PackData.get_object_at",
                         "dulwich.pack.DeltaChainIterator/PackIndexer (ingestion)", "dulwich.object_store.DiskObjectStore.add_pack"],
                bounds="a pack of one full blob and 1-3 delta entries; every entry's kind (OFS / REF) and base (any entry including "
                       "itself and later ones for REF; any earlier entry or itself, i.e. distance 0, for OFS) symbolic: self "
                       "references, 2- and 3-cycles, mixed OFS/REF cycles, chains into cycles; installed with a matching index "
-                      "(every lookup under a 5 s watchdog) or ingested through add_pack",
+                      "(every lookup under a 5 s watchdog) or ingested through add_pack; optionally the last delta produces the empty blob",
                outside="cycles through more than 3 deltas or across several packs; thin packs", tiers=q),
+    ]
+
+
+# ---------------------------------------------------------------------------------------------
+# (f) index files cut or crafted inside an entry whose name length field is saturated (names >= 4095 bytes)
+_b04f = checks
+
+
+def h_index_long_name(eng, version=2):
+    """an index with one short and one long-named entry (name of 0xFFF..0x1001 bytes), truncated at a symbolic position
+    relative to the long name, or with the terminating NULs overwritten: reading terminates with an ordinary error
+    (or, if nothing relevant was lost, the same entries)"""
+    from dulwich.index import Index, IndexEntry
+    nlen = [0xFFF, 0x1000, 0x1001][eng.choice("name_len", 3)]
+    d = scratch("c04i")
+    try:
+        path = os.path.join(d, "index")
+        idx = Index(path, read=False, version=version)
+        e = IndexEntry(ctime=(1, 0), mtime=(1, 0), dev=0, ino=0, mode=0o100644, uid=0, gid=0, size=1, sha=b"1" * 40, flags=0,
+                       extended_flags=0)
+        long_name = b"d/" + b"n" * (nlen - 2)
+        idx[b"a"] = e
+        idx[long_name] = e
+        idx.write()
+        with open(path, "rb") as fh:
+            raw = fh.read()
+        start = raw.index(long_name)
+        kind = eng.choice("damage", 3)
+        where = [0, 1, 4094, 4095, nlen - 1, nlen, nlen + 1, nlen + 4][eng.choice("where", 8)]
+        if kind == 0:
+            data = raw[:start + where]                                   # cut inside / right after the name
+        elif kind == 1:
+            data = raw[:start + where] + b"n" * (len(raw) - start - where)   # no NUL terminator before end of file
+        else:
+            data = raw[:start + where] + b"n" * 64                       # unterminated and short
+        with open(path, "wb") as fh:
+            fh.write(data)
+        tag = f"[v{version} name of {nlen} bytes; damage kind {kind} at name+{where}]"
+        try:
+            got = _with_watchdog(5.0, lambda: Index(path))
+        except _Hang:
+            eng.fail(f"{tag} reading the index does not terminate")
+            return
+        except Exception as ex:
+            eng.prove(isinstance(ex, (KeyError, ValueError, AssertionError, OSError, ChecksumMismatch, EOFError, IndexError,
+                                      __import__("struct").error, ObjectFormatException)),
+                      f"{tag} reading fails with an ordinary error ({type(ex).__name__})")
+            return
+        eng.prove(data == raw and sorted(got) == [b"a", long_name], f"{tag} a damaged index was read without complaint: {sorted(got)[:2]}")
+    finally:
+        shutil.rmtree(d, ignore_errors=True)
+
+
+def checks(tier):
+    q = ("quick", "thorough")
+    return _b04f(tier) + [
+        KCheck("C04f.index_long_name", h_index_long_name, parts=[{"version": v} for v in (2, 3, 4)],
+               encoded=["dulwich.index.read_cache_entry (saturated name length: read to NUL)", "dulwich.index.read_index_dict_with_version",
+                        "dulwich.index.Index.read", "dulwich.pack.SHA1Reader.check_sha"],
+               bounds="index versions 2-4 with a name of 0xFFF / 0x1000 / 0x1001 bytes; truncation, or overwriting of everything "
+                      "from there on by non-NUL bytes, at 8 positions relative to the name (start, inside, around the 4095th byte, "
+                      "end, padding); read under a 5 s watchdog", outside="other positions; several long names", tiers=q),
     ]
